@@ -145,6 +145,19 @@ func (bf *boltFlow) follow(start ssa.Value, depth int, seen map[ssa.Value]bool) 
 					}
 					continue
 				}
+				// the array behind a variadic argument list: the value goes where the slice of that array goes
+				if ia, ok := x.Addr.(*ssa.IndexAddr); ok {
+					if arr, ok := ia.X.(*ssa.Alloc); ok {
+						if _, isArr := derefType(arr.Type()).Underlying().(*types.Array); isArr {
+							for _, ar := range *arr.Referrers() {
+								if sl, ok := ar.(*ssa.Slice); ok {
+									push(sl)
+								}
+							}
+							continue
+						}
+					}
+				}
 				sinks = append(sinks, boltSink{x, "stored into " + describeAddr(x.Addr)})
 			case *ssa.MapUpdate:
 				if x.Value == v || x.Key == v {
